@@ -197,6 +197,12 @@ func TestWriteWitnesses(t *testing.T) {
 		"vec-inc3-slices-offset-by-3-accepted": {Op: "AddVec", L: 12, Seed: 1,
 			Recv: Win{K: "V", VM: "col", PS: 3, PR: 4, I: 0, J: 0, R: 3, C: 1},
 			Args: []Arg{{W: Win{K: "V", VM: "col", PS: 3, PR: 4, I: 1, J: 0, R: 3, C: 1}}, freshV(3)}},
+		"copyvec-same-inc-receiver-one-step-after-source": {Op: "CopyVec", L: 16, Seed: 1,
+			Recv: Win{K: "V", VM: "col", PS: 4, PR: 4, I: 1, J: 0, R: 3, C: 1},
+			Args: []Arg{{W: Win{K: "V", VM: "col", PS: 4, PR: 4, I: 0, J: 0, R: 3, C: 1}}}},
+		"copysym-receiver-one-diagonal-step-after-source": {Op: "CopySym", L: 16, Seed: 1,
+			Recv: Win{K: "S", PS: 4, PR: 4, I: 1, J: 1, R: 3, C: 3},
+			Args: []Arg{{W: Win{K: "S", PS: 4, PR: 4, I: 0, J: 0, R: 3, C: 3}}}},
 		"mul-dense-times-symdense-receiver-overlaps-sym": {Op: "Mul", L: 16, Seed: 1,
 			Recv: Win{K: "D", PS: 4, PR: 4, I: 0, J: 1, R: 2, C: 2},
 			Args: []Arg{{Buf: 1, W: Win{K: "D", PS: 3, PR: 2, I: 0, J: 1, R: 2, C: 2}}, {W: Win{K: "S", PS: 4, PR: 4, I: 0, J: 0, R: 2, C: 2}}}},
